@@ -211,6 +211,108 @@ def run_pair(ctx, case, rng):
 
 
 # ---------------------------------------------------------------------------
+def run_kexlock(ctx, case, rng):
+    """A key re-exchange is in progress on the reading side while an application read crosses the adjust threshold (an
+    adjust is owed during the exchange) and a message for the same channel whose handler takes the channel lock is in
+    transit ahead of the peer's KEXINIT/NEWKEYS.  The exchange must complete and the owed adjust must go out."""
+    w = 32768
+    thr = w // 10
+    role = case["reader"]
+    p = pair.Pair(rng=rng, server_kw=dict(default_window_size=w))
+    cm.watch(p.tc, p.rec, "c")
+    cm.watch(p.ts, p.rec, "s")
+    p.tc.clear_to_send_timeout = p.ts.clear_to_send_timeout = 20.0  # a stall ends in an exception, not in 30 s of silence
+    try:
+        if not p.start() or not p.auth():
+            ctx.inconclusive("handshake failed (kexlock)")
+            return
+        cm.diverge_ids(p, rng)
+        c, s = p.session(window_size=w)
+        r, y = (c, s) if role == "c" else (s, c)
+        tr, ty = (p.tc, p.ts) if role == "c" else (p.ts, p.tc)
+        to_r = p.link.ba if role == "c" else p.link.ab
+        n1 = thr + 500
+        y.sendall(bytes(n1))
+        if case["transit"] == "adjust":
+            r.sendall(bytes(thr + 100))  # the peer's read of this will produce the in-transit WINDOW_ADJUST
+        if not pair.wait_for(lambda: len(r.in_buffer) == n1 and (case["transit"] != "adjust" or len(y.in_buffer) == thr + 100), 20, 0.002):
+            ctx.inconclusive("staging data did not arrive (kexlock)")
+            return
+        to_r.hold()
+        k = case["transit"]
+        if k == "stderr":
+            y.sendall_stderr(b"\x81" * 700)
+        elif k == "adjust":
+            y.recv(thr + 100)
+        elif k == "eof":
+            y.shutdown_write()
+        else:
+            (s if y is s else y).send_exit_status(3)
+        if not pair.wait_for(lambda: len(to_r.held) > 0, 20, 0.002):
+            to_r.release()
+            ctx.inconclusive("in-transit message not behind the gate (kexlock)")
+            return
+        errs = {}
+
+        def rekey(name, t):
+            try:
+                t.renegotiate_keys()
+            except Exception as e:
+                errs[name] = repr(e)
+
+        n_kex = len(p.msgs(role, "out", (20,)))
+        rk = [threading.Thread(target=rekey, args=("reader-side", tr), daemon=True)]
+        rk[0].start()
+        if not pair.wait_for(lambda: len(p.msgs(role, "out", (20,))) > n_kex, 20, 0.002):
+            to_r.release()
+            ctx.inconclusive("reader side sent no KEXINIT (kexlock)")
+            return
+        got = {}
+
+        def reader():
+            try:
+                got["n"] = len(r.recv(n1))  # crosses the threshold: an adjust is owed while the exchange runs
+            except Exception as e:
+                got["exc"] = repr(e)
+
+        rt = threading.Thread(target=reader, daemon=True, name="reader")
+        rt.start()
+        in_send = pair.wait_for(lambda: (not rt.is_alive()) or "_send_user_message" in " ".join(cm.stacks_of([rt]).get("reader", [])), 20, 0.002)
+        if rt.is_alive() and in_send:
+            ctx.count("adjust_owed_during_key_exchange")
+        to_r.release()
+        for t in rk:
+            t.join(120)
+        rt.join(60)
+        desc = dict(case=case, rekey_errors=errs, reader=got)
+        if any(t.is_alive() for t in rk) or rt.is_alive():
+            ok, st = cm.blocked_at_quiescence([t for t in rk + [rt] if t.is_alive()], p.link, ctx.pick(10, 20))
+            if ok:
+                ctx.violation("key re-exchange blocked at quiescence while a window adjust was owed",
+                              "re-key and/or reader never returned; link drained", dict(desc, stacks=st))
+            else:
+                ctx.inconclusive("kexlock threads unfinished without quiescence")
+            return
+        if errs or "exc" in got or not (p.tc.is_active() and p.ts.is_active()):
+            ctx.violation("key re-exchange failed while a window adjust was owed during the exchange",
+                          "the exchange (or the read) ended with an error although both peers were alive and the link intact",
+                          desc)
+            return
+        ctx.count("kexlock_rekeys_completed")
+        rd = cm.PollReader(r, rng.getrandbits(32), 40000).start()
+        p.wait_quiet(0.1, 10)
+        rd.settle()
+        rd.stop()
+        judge_receiver(ctx, p.rec, role, case)
+        adj = [e for e in p.msgs(role, "out", (cm.ADJUST,))]
+        if adj:
+            ctx.count("owed_adjusts_sent_after_exchange")
+        ctx.count("kexlock_cases")
+    finally:
+        p.close()
+
+
+# ---------------------------------------------------------------------------
 def gen_multi(rng, idx):
     return dict(kind="parked-writers-one-adjust", writers=2 + idx % 3, window=rng.choice((32768, 32769, 65536)),
                 direction="cs"[idx // 3 % 2], chunk=rng.choice((1, 100, 3000)), stderr_mix=rng.random() < 0.5)
@@ -408,6 +510,15 @@ def run(ctx):
         ctx.guard(run_ext, ctx, case, rng)
         ctx.case(("ext", sorted(case.items(), key=str)), sample=case if i < 2 else None,
                  nontrivial=ctx.counters.get("quiescence_credit_checks", 0) > before)
+    for i in range(ctx.pick(4, 24)):
+        j = i * ctx.nshards + ctx.shard
+        case = dict(kind="adjust-owed-during-kex", reader="cs"[j % 2], transit=("stderr", "adjust", "eof", "request")[j // 2 % 4])
+        if case["transit"] == "request" and case["reader"] == "s":
+            case["transit"] = "stderr"  # exit-status requests only travel server -> client
+        before = ctx.counters.get("kexlock_cases", 0)
+        ctx.guard(run_kexlock, ctx, case, rng)
+        ctx.case(("kexlock", sorted(case.items()), i), sample=case if i == 0 else None,
+                 nontrivial=ctx.counters.get("kexlock_cases", 0) > before)
     for i in range(ctx.pick(3, 20)):
         case = gen_multi(rng, i * ctx.nshards + ctx.shard)
         before = ctx.counters.get("parked_writers_all_progressed", 0)
@@ -427,6 +538,9 @@ def run(ctx):
     ctx.require("ext_cases", 20)
     ctx.require("discarded_bytes_seen", 10000)
     ctx.require("adjusts_seen", 100)
+    ctx.require("kexlock_cases", 24)
+    ctx.require("adjust_owed_during_key_exchange", 20)
+    ctx.require("owed_adjusts_sent_after_exchange", 20)
     ctx.require("writers_parked_together", 40)
     ctx.require("single_large_adjusts", 16)
     ctx.require("parked_writers_all_progressed", 16)
